@@ -118,6 +118,17 @@ def ev(v, val, hooks=None):
                 return round(*args)
             if name == 'divmod':
                 return divmod(args[0], args[1])
+        if op == 'call' and a[0] == 'int.from_bytes':
+            pos, kw = [], {}
+            for x in a[1:]:
+                if isinstance(x, T) and x.op == 'kw':
+                    kw[x.args[0]] = ev(x.args[1], val, hooks)
+                else:
+                    pos.append(ev(x, val, hooks))
+            try:
+                return int.from_bytes(*pos, **kw)
+            except (TypeError, ValueError) as e:
+                raise Raised(type(e).__name__)
         if op == 'call' and a[0] in STDLIB_PURE:
             import importlib
             modname, _, fname = a[0].rpartition('.')
